@@ -121,3 +121,31 @@ def balanced_scope_contract(kind, node, resolver, tok, inner_names):
         check("named_scope", isinstance(resolver.scopes[n0], NamedScope) and resolver.scopes[n0].name == node.name)
     else:
         check("anonymous_scope", not isinstance(resolver.scopes[n0], NamedScope) and not isinstance(resolver.scopes[n0], InternalScope))
+
+
+def deferred_application_contract(macro_def, apply_node, resolver, tok, addr, late_name, late_value, param, expected):
+    """Forward reference in an argument: the application defers the binding; once the late symbol exists in the CALL-SITE scope,
+    the deferred node (visited with the application's scope current, as the passes do) binds the parameter to the argument's
+    call-site value."""
+    defs = {}
+    generate_macro(macro_def, resolver, defs, tok)
+    scope0 = resolver.current_scope
+    n0 = len(resolver.scopes)
+    code = generate_macro_application(apply_node, resolver, defs, tok)
+    app_scope = resolver.scopes[n0]
+    deferred = [n for n in code if isinstance(n, SymbolNode)]
+    check("one_deferred_binding", len(deferred) == 1 and deferred[0].symbol_name == param)
+    scope0.add_symbol(late_name, late_value)
+    resolver.current_scope = app_scope
+    deferred[0].pc_after(addr)
+    check("deferred_value_is_call_site_value", app_scope.symbols.get(param) == expected)
+    check("application_scope_still_current", resolver.current_scope is app_scope)
+
+
+def code_block_argument_contract(macro_def, apply_node, resolver, tok, expected_labels):
+    """A code-block argument is expanded wherever the parameter is spliced -- also from a scope nested inside the macro body."""
+    defs = {}
+    generate_macro(macro_def, resolver, defs, tok)
+    code = generate_macro_application(apply_node, resolver, defs, tok)
+    check("block_spliced_where_referenced", label_names(code) == expected_labels)
+    check("call_site_scope_restored", resolver.current_scope is resolver.scopes[0])
